@@ -274,12 +274,17 @@ def finish(ctx, mod, t0, coverage_extra=None, assumptions=None, exhaustive=True)
         and ctx.tier in e.get("tiers", ["quick", "thorough"])
     ]
     status = 0
-    for key, v in new:
+    MAXV = 40
+    if len(new) > MAXV:
+        print(f"({len(new)} distinct violation keys; the first {MAXV} are written out, all are counted in the evidence)")
+    for key, v in new[:MAXV]:
         path = write_replay(prop, key, v, ctx.tier, ctx.seed)
         print(f"VIOLATION property={prop} replay={path}")
         print(f"  key={key} cases={v['count']}")
         print(f"  expected={json.dumps(v['expected'])[:300]}")
         print(f"  observed={json.dumps(v['observed'])[:300]}")
+        status = 1
+    if new:
         status = 1
     cov = {
         "states": max(1, len(ctx.outcomes)),
